@@ -207,6 +207,11 @@ func computeDependenciesAndInclusion(funcs []*provider, initF *provider) ([]*pro
 		if countExcluded() == before {
 			break
 		}
+		// the last attempt may have failed part-way: recompute include/cannotInclude
+		// for the current set before proposing again
+		if err = validateChainMarkIncludeExclude(funcs, false); err != nil {
+			break
+		}
 	}
 
 	debugln("final set of functions")
